@@ -21,7 +21,9 @@ Result.
 * The network also has full-state merges between any two replicas at any time (anti-entropy), `Act.sync`.
 * INSTANCES proved: G-counter and PN-counter (guard: no uint64 overflow of a slot) and Flag —
   `C39_gcounter`, `C39_pncounter`, `C39_flag`.
-* The full statement is FALSE of the current code (`C39_refuted`), three independent witnesses:
+* LWW register: an instance since fix 670e96a (`lw_laws`, `C39_lww`; guard: a stamp names one write, timestamps ≥ 0);
+  the former witness of C39-F2 is kept as `lww_stale_write_ignored`.
+* The full statement is FALSE of the current code (`C39_refuted`), two independent witnesses:
   OR-set deltas lose earlier adds of the same node (`orset_delta_loses_add`; root cause
   `orset_violates_delta_law`), an LWW write with a stale stamp is exposed locally only
   (`lww_stale_write_diverges`), an OR-map remove + re-set leaves peers with the old value merged in
@@ -179,8 +181,9 @@ theorem gc_laws : Laws cvOps (wire idSer) (.gc .new) gcSemi gcCore gcOk gcMut wh
     rintro a b ⟨ca, rfl, hda, hsa⟩ ⟨cb, rfl, _, _⟩
     exact ⟨⟨_, rfl, hda, sorted_mergeMax hsa cb.state⟩, rfl⟩
   wire_ok := by
-    rintro v ⟨c, rfl, hd, hs⟩
-    exact ⟨.gc ⟨c.state, []⟩, rfl, ⟨_, rfl, rfl, hs⟩, rfl⟩
+    rintro v v' ⟨c, rfl, hd, hs⟩ hw
+    cases hw
+    exact ⟨⟨_, rfl, rfl, hs⟩, rfl⟩
   upd_none := by
     rintro f s ⟨n, x, rfl, _⟩ ⟨c, rfl, hd, _⟩ hnone
     simp [cvOps, gcIncr, CV.delta?, GCounter.delta?, GCounter.increment, hd, AMap.set] at hnone
@@ -261,8 +264,9 @@ theorem pn_laws : Laws cvOps (wire idSer) (.pn .new) pnSemi pnCore pnOk pnMut wh
     rintro a b ⟨ca, rfl, h1, h2, h3, h4⟩ ⟨cb, rfl, _, _, _, _⟩
     exact ⟨⟨_, rfl, h1, h2, sorted_mergeMax h3 _, sorted_mergeMax h4 _⟩, rfl⟩
   wire_ok := by
-    rintro v ⟨c, rfl, _, _, h3, h4⟩
-    exact ⟨.pn ⟨⟨c.increments.state, []⟩, ⟨c.decrements.state, []⟩⟩, rfl, ⟨_, rfl, rfl, rfl, h3, h4⟩, rfl⟩
+    rintro v v' ⟨c, rfl, _, _, h3, h4⟩ hw
+    cases hw
+    exact ⟨⟨_, rfl, rfl, rfl, h3, h4⟩, rfl⟩
   upd_none := by
     rintro f s ⟨n, x, h⟩ ⟨c, rfl, h1, h2, _, _⟩ hnone
     rcases h with ⟨rfl, _⟩ | ⟨rfl, _⟩ <;>
@@ -355,10 +359,9 @@ theorem fl_laws : Laws cvOps (wire idSer) (.fl .new) flSemi flCore flOk flMut wh
   core_init := rfl
   merge_ok := by rintro a b ⟨x, rfl⟩ ⟨y, rfl⟩; exact ⟨⟨_, rfl⟩, rfl⟩
   wire_ok := by
-    rintro v ⟨x, rfl⟩
-    refine ⟨.fl ⟨x.enabled, x.enabled⟩, ?_, ⟨_, rfl⟩, rfl⟩
+    rintro v v' ⟨x, rfl⟩ hw
     obtain ⟨e, d⟩ := x
-    cases e <;> rfl
+    cases e <;> (cases hw; exact ⟨⟨_, rfl⟩, rfl⟩)
   upd_none := by
     rintro f s rfl ⟨x, rfl⟩ hnone
     obtain ⟨e, d⟩ := x
@@ -410,13 +413,177 @@ def lwSet (v : Nat) (ts : Int) (n : Nat) : CV → CV
   | .lw r => .lw (r.set v ts n)
   | x => x
 
-/-- replica 0 writes 1 at time 10; replica 1 receives it, then writes 2 at time 5 (its clock is
-    behind); replica 0 receives that.  Both have seen both writes; replica 0 exposes 1, replica 1
-    exposes its own stale write 2. -/
-theorem lww_stale_write_diverges :
+/-- the former counterexample C39-F2 (before fix 670e96a replica 1 exposed its own stale write 2):
+    replica 0 writes 1 at time 10; replica 1 receives it, then writes 2 at time 5 (its clock is
+    behind) — the write is ignored; both expose 1. -/
+theorem lww_stale_write_ignored :
     lwVal ((Net.run [.upd 0 2 2 (.lw .new) (lwSet 1 10 1), .dlv 1 0, .upd 1 2 2 (.lw .new) (lwSet 2 5 2), .dlv 0 1]).at 0 2) = some 1
-    ∧ lwVal ((Net.run [.upd 0 2 2 (.lw .new) (lwSet 1 10 1), .dlv 1 0, .upd 1 2 2 (.lw .new) (lwSet 2 5 2), .dlv 0 1]).at 1 2) = some 2 := by
+    ∧ lwVal ((Net.run [.upd 0 2 2 (.lw .new) (lwSet 1 10 1), .dlv 1 0, .upd 1 2 2 (.lw .new) (lwSet 2 5 2), .dlv 0 1]).at 1 2) = some 1 := by
   decide
+
+/-! ### instance: LWW register (since fix 670e96a)
+
+Guard: a stamp names ONE write — `valOf (ts, node)` is the value written under that stamp (two
+different values under one stamp is C38's commutativity finding) — and timestamps are not negative
+(a fresh register carries stamp (0, ""), which a write before 1970 would lose against). -/
+
+abbrev LwCore := Option Nat × Int × Nat
+
+def lwWins (a b : LwCore) : Bool :=
+  decide (b.2.1 > a.2.1) || (decide (b.2.1 = a.2.1) && decide (b.2.2 > a.2.2))
+
+def lwJoin (a b : LwCore) : LwCore := if lwWins a b then b else a
+
+def lwSemi (valOf : Int × Nat → Option Nat) (h0 : valOf (0, 0) = none) : Semi LwCore where
+  join := lwJoin
+  bot := (none, 0, 0)
+  WF := fun c => 0 ≤ c.2.1 ∧ c.1 = valOf (c.2.1, c.2.2)
+  wf_bot := ⟨Int.le_refl 0, h0.symm⟩
+  wf_join := by
+    intro a b ha hb
+    unfold lwJoin; split <;> assumption
+  comm := by
+    rintro ⟨va, ta, na⟩ ⟨vb, tb, nb⟩ ⟨_, ha⟩ ⟨_, hb⟩
+    simp only at ha hb
+    simp only [lwJoin, lwWins]
+    by_cases h1 : tb > ta
+    · have : ¬ ta > tb := by omega
+      have : ¬ ta = tb := by omega
+      simp [*]
+    · by_cases h2 : ta > tb
+      · have : ¬ tb = ta := by omega
+        simp [*]
+      · have ht : tb = ta := by omega
+        subst ht
+        by_cases h3 : nb > na
+        · have : ¬ na > nb := by omega
+          simp [*]
+        · by_cases h4 : na > nb
+          · simp [*]
+          · have hn : nb = na := by omega
+            subst hn
+            simp [ha, hb]
+  assoc := by
+    rintro ⟨va, ta, na⟩ ⟨vb, tb, nb⟩ ⟨vc, tc, nc⟩ _ _ _
+    simp only [lwJoin, lwWins]
+    grind
+  idem := by
+    rintro ⟨va, ta, na⟩ _
+    simp [lwJoin, lwWins]
+  bot_join := by
+    rintro ⟨va, ta, na⟩ ⟨h1, h2⟩
+    simp only at h1 h2
+    simp only [lwJoin, lwWins]
+    by_cases ht : ta > 0
+    · simp [ht]
+    · have : ta = 0 := by omega
+      subst this
+      by_cases hn : na > 0
+      · simp [hn]
+      · have : na = 0 := by omega
+        subst this
+        simp [h2, h0]
+
+def lwCore : CV → LwCore
+  | .lw r => (r.value, r.timestamp, r.nodeID)
+  | _ => (none, 0, 0)
+
+/-- the LWW values that occur: stamp ≥ 0, the value is the one written under the stamp, and only a
+    never-written register holds nil -/
+def lwOk (valOf : Int × Nat → Option Nat) (v : CV) : Prop :=
+  ∃ r, v = .lw r ∧ 0 ≤ r.timestamp ∧ r.value = valOf (r.timestamp, r.nodeID)
+    ∧ (r.value = none → r.timestamp = 0 ∧ r.nodeID = 0 ∧ r.dirty = false)
+
+/-- `Set(v, ts, node)` with a non-negative timestamp, `v` being THE value written under that stamp -/
+def lwMut (valOf : Int × Nat → Option Nat) (f : CV → CV) (_ : CV) : Prop :=
+  ∃ v ts n, f = lwSet v ts n ∧ 0 ≤ ts ∧ valOf (ts, n) = some v
+
+theorem lw_laws (valOf : Int × Nat → Option Nat) (h0 : valOf (0, 0) = none) :
+    Laws cvOps (wire idSer) (.lw .new) (lwSemi valOf h0) lwCore (lwOk valOf) (lwMut valOf) where
+  ok_wf := by rintro v ⟨r, rfl, h1, h2, _⟩; exact ⟨h1, h2⟩
+  ok_init := ⟨.new, rfl, Int.le_refl 0, h0.symm, fun _ => ⟨rfl, rfl, rfl⟩⟩
+  core_init := rfl
+  merge_ok := by
+    rintro a b ⟨ra, rfl, a1, a2, a3⟩ ⟨rb, rfl, b1, b2, b3⟩
+    obtain ⟨va, ta, na, da⟩ := ra
+    obtain ⟨vb, tb, nb, db⟩ := rb
+    simp only at a1 a2 a3 b1 b2 b3
+    by_cases hw : LWWRegister.otherWins ⟨va, ta, na, da⟩ ⟨vb, tb, nb, db⟩ = true
+    · refine ⟨⟨⟨vb, tb, nb, false⟩, by simp [cvOps, CV.merge, LWWRegister.merge, hw], b1, b2, ?_⟩, ?_⟩
+      · intro h; obtain ⟨x, y, _⟩ := b3 h; exact ⟨x, y, rfl⟩
+      · simp only [cvOps, CV.merge, LWWRegister.merge, hw, lwCore, lwSemi, lwJoin, lwWins]
+        simp only [LWWRegister.otherWins] at hw
+        simp [hw]
+    · refine ⟨⟨⟨va, ta, na, false⟩, by simp [cvOps, CV.merge, LWWRegister.merge, hw], a1, a2, ?_⟩, ?_⟩
+      · intro h; obtain ⟨x, y, _⟩ := a3 h; exact ⟨x, y, rfl⟩
+      · simp only [cvOps, CV.merge, LWWRegister.merge, hw, lwCore, lwSemi, lwJoin, lwWins]
+        simp only [LWWRegister.otherWins] at hw
+        simp [hw]
+  wire_ok := by
+    rintro v v' ⟨r, rfl, h1, h2, h3⟩ hw
+    obtain ⟨vr, tr, nr, dr⟩ := r
+    cases vr with
+    | none => simp [wire, encode, encLWW] at hw
+    | some x =>
+      simp [wire, encode, encLWW, decode, decLWW, idSer, LWWRegister.fromState] at hw
+      subst hw
+      exact ⟨⟨_, rfl, h1, h2, by simp⟩, rfl⟩
+  upd_none := by
+    rintro f s ⟨v, ts, n, rfl, hts, hval⟩ ⟨r, rfl, h1, h2, h3⟩ hnone
+    obtain ⟨vr, tr, nr, dr⟩ := r
+    simp only at h1 h2 h3
+    by_cases hst : ts < tr ∨ (ts = tr ∧ n < nr)
+    · have hfs : lwSet v ts n (.lw ⟨vr, tr, nr, dr⟩) = .lw ⟨vr, tr, nr, dr⟩ := by
+        simp [lwSet, LWWRegister.set, hst]
+      rw [hfs]
+      exact ⟨⟨_, rfl, h1, h2, fun h => by obtain ⟨x, y, _⟩ := h3 h; exact ⟨x, y, rfl⟩⟩, rfl⟩
+    · simp [cvOps, lwSet, LWWRegister.set, hst, CV.delta?, LWWRegister.delta?] at hnone
+  upd_some := by
+    rintro f s d ⟨v, ts, n, rfl, hts, hval⟩ ⟨r, rfl, h1, h2, h3⟩ hsome
+    obtain ⟨vr, tr, nr, dr⟩ := r
+    simp only at h1 h2 h3
+    by_cases hst : ts < tr ∨ (ts = tr ∧ n < nr)
+    · -- stale write: the register is returned unchanged; it is re-shipped only if it was dirty
+      have hfs : lwSet v ts n (.lw ⟨vr, tr, nr, dr⟩) = .lw ⟨vr, tr, nr, dr⟩ := by
+        simp [lwSet, LWWRegister.set, hst]
+      rw [hfs] at hsome ⊢
+      cases dr with
+      | false => simp [cvOps, CV.delta?, LWWRegister.delta?] at hsome
+      | true =>
+        simp [cvOps, CV.delta?, LWWRegister.delta?] at hsome
+        subst hsome
+        cases vr with
+        | none => have := (h3 rfl).2.2; simp at this
+        | some x =>
+          refine ⟨.lw ⟨some x, tr, nr, false⟩, rfl, ⟨_, rfl, h1, h2, by intro h; cases h⟩, ⟨_, rfl, h1, h2, by intro h; cases h⟩, ?_⟩
+          show (some x, tr, nr) = lwJoin (some x, tr, nr) (some x, tr, nr)
+          simp [lwJoin, lwWins]
+    · have hfs : lwSet v ts n (.lw ⟨vr, tr, nr, dr⟩) = .lw ⟨some v, ts, n, true⟩ := by
+        simp [lwSet, LWWRegister.set, hst]
+      rw [hfs] at hsome ⊢
+      simp [cvOps, CV.delta?, LWWRegister.delta?] at hsome
+      subst hsome
+      refine ⟨.lw ⟨some v, ts, n, false⟩, rfl, ⟨_, rfl, hts, hval.symm, by intro h; cases h⟩, ⟨_, rfl, hts, hval.symm, by intro h; cases h⟩, ?_⟩
+      show (some v, ts, n) = lwJoin (vr, tr, nr) (some v, ts, n)
+      simp only [lwJoin, lwWins]
+      by_cases hgt : ts > tr
+      · simp [hgt]
+      · have hte : ts = tr := by omega
+        subst hte
+        by_cases hn : n > nr
+        · simp [hn]
+        · have hne : n = nr := by omega
+          subst hne
+          simp [h2, hval]
+
+/-- LWW register: for all histories of writes with non-negative timestamps in which a stamp names
+    one write, all delivery orders / duplications / losses and any full-state merges, replicas that
+    have seen the same set of deltas expose the same value (and stamp). -/
+theorem C39_lww (valOf : Int × Nat → Option Nat) (h0 : valOf (0, 0) = none) (w : Net) (arr : Nat → List Nat)
+    (h : Reach cvOps (wire idSer) (.lw .new) (lwMut valOf) 2 2 w arr) (i i' : Nat)
+    (h1 : ∀ j ∈ arr i, j ∈ arr i') (h2 : ∀ j ∈ arr i', j ∈ arr i)
+    (v v' : CV) (hv : w.at i 2 = some v) (hv' : w.at i' 2 = some v') : lwCore v = lwCore v' :=
+  converge (lw_laws valOf h0) w arr h i i' h1 h2 v v' hv hv'
 
 def omVals : Option CV → List (Nat × Nat)
   | some (.om m) => m.entriesOf.map fun p => (p.1, p.2.value)
@@ -489,9 +656,14 @@ theorem C39_refuted : ¬ C39_full := by
   revert this
   decide
 
-/-- the true part: G-counters and PN-counters (non-overflowing slots) and flags converge — for all
+/-- the true part: LWW registers (one write per stamp, timestamps ≥ 0), G-counters and PN-counters
+    (non-overflowing slots) and flags converge — for all
     histories, all delivery orders, duplications and losses of deltas, and any full-state merges -/
 def C39_guarded : Prop :=
+  (∀ (valOf : Int × Nat → Option Nat), valOf (0, 0) = none →
+    ∀ (w : Net) (arr : Nat → List Nat), Reach cvOps (wire idSer) (.lw .new) (lwMut valOf) 2 2 w arr →
+    ∀ i i' v v', (∀ j ∈ arr i, j ∈ arr i') → (∀ j ∈ arr i', j ∈ arr i) →
+      w.at i 2 = some v → w.at i' 2 = some v' → expose v = expose v') ∧
   (∀ (w : Net) (arr : Nat → List Nat), Reach cvOps (wire idSer) (.pn .new) pnMut 1 1 w arr →
     ∀ i i' v v', (∀ j ∈ arr i, j ∈ arr i') → (∀ j ∈ arr i', j ∈ arr i) →
       w.at i 1 = some v → w.at i' 1 = some v' → expose v = expose v') ∧
@@ -503,7 +675,18 @@ def C39_guarded : Prop :=
       w.at i 5 = some v → w.at i' 5 = some v' → expose v = expose v')
 
 theorem C39_partial : C39_guarded := by
-  refine ⟨?_, ?_, ?_⟩
+  refine ⟨?_, ?_, ?_, ?_⟩
+  · intro valOf h0 w arr h i i' v v' h1 h2 hv hv'
+    have hc := C39_lww valOf h0 w arr h i i' h1 h2 v v' hv hv'
+    have inv := reach_inv (lw_laws valOf h0) w arr h
+    have a := inv.val i
+    have b := inv.val i'
+    unfold FNet.at at hv hv'
+    rw [hv] at a; rw [hv'] at b
+    obtain ⟨⟨x, rfl, _⟩, _⟩ := a
+    obtain ⟨⟨y, rfl, _⟩, _⟩ := b
+    simp only [lwCore, Prod.mk.injEq] at hc
+    simp [expose, hc.1]
   · intro w arr h i i' v v' h1 h2 hv hv'
     obtain ⟨c, c', rfl, rfl, hval⟩ := C39_pncounter w arr h i i' h1 h2 v v' hv hv'
     simp [expose, hval]
